@@ -397,6 +397,16 @@ func genCfg(seed uint64, n int, tier string, emit func(string, []string, any)) {
 			emit("cfg", []string{"set"}, cfgIn{Config: d, Note: fmt.Sprintf("set %s=%v", strings.Join(m.path, "."), v)})
 		}
 	}
+	// every engine has its own template set: what the routes file must honour is checked under each of them
+	for _, e := range []string{"gin", "echo", "mux", "chi", "fiber"} {
+		for _, pn := range []any{"api", "my_routes", nil} {
+			d := deepCopy(baseConfig()).(map[string]any)
+			setPath(d, []string{"routesConfig", "engine"}, e, false)
+			setPath(d, []string{"routesConfig", "packageName"}, pn, pn == nil)
+			setPath(d, []string{"routesConfig", "outputFilePerms"}, rng.Pick(r, []string{"0600", "640", "0644", "755"}), false)
+			emit("cfg", []string{"engine-cross"}, cfgIn{Config: d, Note: fmt.Sprintf("engine=%s packageName=%v", e, pn)})
+		}
+	}
 	// the honoured-in-output half under the other OpenAPI version as well
 	for _, m := range muts {
 		last := m.path[len(m.path)-1]
